@@ -227,9 +227,29 @@ def l2_gen(seed, families, big):
     ops = []
     uniq = [1000]
 
-    def body():
+    last = {}
+
+    def body(n=None):
+        # replacement lists of 0..4 tokens; successive definitions of one name are often token-prefixes or
+        # extensions of each other, so "same as before" shortcuts are exercised; a fresh number keeps reads attributable
         uniq[0] += 1
-        return str(uniq[0])
+        prev = last.get(n)
+        k = r.below(6)
+        if prev is not None and k == 0:
+            b = (prev + " " + str(uniq[0])).strip()
+        elif prev is not None and k == 1 and " " in prev:
+            b = prev.rsplit(" ", 1)[0]
+        elif prev is not None and k == 2:
+            b = prev
+        elif k == 3:
+            b = "%d + %d" % (uniq[0], uniq[0] + 1)
+        elif k == 4 and n is not None and r.below(3) == 0:
+            b = ""
+        else:
+            b = str(uniq[0])
+        if n is not None:
+            last[n] = b
+        return b
     nargs = r.pick([0, 0, 1, 2, 4]) if not big else r.below(3)
     for _ in range(nargs):
         n = r.pick(names)
@@ -239,7 +259,7 @@ def l2_gen(seed, families, big):
         elif k == 1:
             ops.append(["arg", "def", n, None, r.below(2)])  # -DN  => 1
         else:
-            ops.append(["arg", "def", n, body(), r.below(2)])
+            ops.append(["arg", "def", n, body(n), r.below(2)])
     nops = r.pick([3, 5, 8, 12, 20, 40, 80]) if not big else r.range(300, 900)
     wdef, wundef, wprobe = r.pick([(5, 3, 3), (4, 4, 2), (6, 2, 3), (3, 4, 4)])
     recent_undef = []
@@ -250,9 +270,9 @@ def l2_gen(seed, families, big):
             if recent_undef and r.chance(1, 2):
                 n = r.pick(recent_undef)
             if r.chance(1, 4):
-                ops.append(["src", "fdef", n, body(), 0])
+                ops.append(["src", "fdef", n, body(n) or "7", 0])
             else:
-                ops.append(["src", "def", n, body(), 0])
+                ops.append(["src", "def", n, body(n), 0])
         elif x < wdef + wundef:
             ops.append(["src", "undef", n, "", 0])
             recent_undef = (recent_undef + [n])[-4:]
